@@ -593,3 +593,12 @@ fn c05_derived_tag() {
              "C05.tag.variant_tags_are_iana_types");
     vcover!(t == 0x0a0a, "C05.tag.cover.grease");
 }
+
+/// Vacuity guard (thorough tier): the same harness body followed by a false assertion must FAIL.
+#[cfg(feature = "thorough")]
+#[kani::proof]
+#[kani::unwind(4)]
+fn c05_false_twin_dispatch_native() {
+    dispatch_twin(Which::Generic);
+    vassert!(false, "C05.false_twin");
+}
